@@ -110,7 +110,8 @@ struct C03 : public Driver {
                 // a parameter value that makes a lazily evaluated global variable abort the transformation part-way
                 if (gated && gf.chance(2, 3)) { unsigned q = (unsigned)gf.below(3); o["expr"] = q == 0 ? std::string("'abort'") : q == 1 ? std::string("'badkey'") : "'" + d.ids[gf.below(std::min<size_t>(d.ids.size(), 14))] + "'"; o["faulted"] = true; } }
             else if (r < 19) { o["op"] = gf.chance(1, 2) ? "xpath-eval" : "xpath-capi"; std::string e = pickExpr(gf, d.names, dc.deep || dc.manyNames); SrcFault f = SrcFault::fromJson(srcFaultAt(gf, e, destructive)); o["expr"] = applySrcFault(e, f); o["faulted"] = f.destructive(); o["docFault"] = srcFaultAt(gf, d.xml, destructive && gf.chance(1, 3)); }
-            else { o["op"] = "capi-transform"; o["docFault"] = srcFaultAt(gf, d.xml, destructive && gf.chance(1, 2)); o["xslFault"] = srcFaultAt(gf, s.xsl, destructive && gf.chance(1, 2)); o["toHandler"] = gf.chance(1, 2); }
+            else { o["op"] = "capi-transform"; o["docFault"] = srcFaultAt(gf, d.xml, destructive && gf.chance(1, 2)); o["xslFault"] = srcFaultAt(gf, s.xsl, destructive && gf.chance(1, 2)); o["toHandler"] = gf.chance(1, 2);
+                if (gated && gf.chance(1, 2)) { o["abortParam"] = gf.chance(1, 2) ? "'abort'" : "'badkey'"; o["faulted"] = true; } }      // the transformation itself fails part-way, after some output
             ops.push(o);
         }
         p["ops"] = ops;
@@ -244,6 +245,7 @@ struct C03 : public Driver {
                     XalanCSSHandle css = nullptr; XalanPSHandle psh = nullptr;
                     int st = XalanCompileStylesheetFromStream(xsn.c_str(), (unsigned long)xsn.size(), h, &css);
                     if (st == 0) st = XalanParseSourceFromStream(ds.c_str(), (unsigned long)ds.size(), h, &psh);
+                    if (st == 0 && o.has("abortParam")) XalanSetStylesheetParam("P1", o.str("abortParam").c_str(), h);
                     if (st == 0) {
                         if (o.boolean("toHandler")) { SimSink sink; st = XalanTransformToHandlerPrebuilt(psh, css, h, &sink, sinkCallback, sinkFlushCallback); r.out = sink.bytes; }
                         else { char* outp = nullptr; st = XalanTransformToDataPrebuilt(psh, css, &outp, h); if (st == 0 && outp) { r.out = outp; XalanFreeData(outp); } }
